@@ -18,6 +18,11 @@ type PublishShowOptions struct {
 	ShowSources      bool
 	ShowStatistics   bool
 	LivingVisibility LivingVisibility
+
+	// surnames is set by NewPublisher so that the surnames of the document
+	// that is being published do not have to be collected again for the header
+	// of every page. See getSurnames.
+	surnames *gedcom.StringSet
 }
 
 type Publisher struct {
@@ -36,6 +41,8 @@ type Publisher struct {
 // destination. Which may be a file system, or somewhere else of your choosing.
 // If you only wish to generate files you should use a DirectoryFileWriter.
 func NewPublisher(doc *gedcom.Document, options *PublishShowOptions) *Publisher {
+	options.surnames = collectSurnames(doc)
+
 	return &Publisher{
 		doc:          doc,
 		options:      options,
